@@ -251,7 +251,7 @@ fn word_dump(xs: &mut Xstate) -> Xresult {
 
 fn dump_bitstr_at(xs: &mut Xstate, start: usize, ncols: usize) -> Xresult {
     let s = current_input(xs)?;
-    let end = s.end().min(start + 16 * ncols * 8);
+    let end = s.end().min(start.saturating_add(16 * ncols * 8));
     let ss = s
         .substr(start, end)
         .ok_or_else(|| Xerr::out_of_range(start, s.bits_range()))?;
